@@ -36,7 +36,38 @@ class Prog:
         for f in self.funcs:
             o.append(fn_src(f))
         o.append('void main()\n' + stmt_src(('block', self.main), 0))
-        return '\n'.join(o) + '\n'
+        return rename_ids('\n'.join(o) + '\n', getattr(self, 'rename', None))
+
+
+# alpha-renaming: a program whose variables and functions are called like a keyword followed by more letters
+# (return_a, elsewhere, sizeofa, short_s, ...) means the same as with the plain names
+RENAMES = [{'a': 'return_a', 'b': 'elsewhere', 'c': 'gotoc', 'd': 'do_d', 'i': 'if_i', 'j': 'int_j', 's': 'short_s', 't': 'while1',
+            'g': 'for_g', 'arr': 'char_arr', 'cnt': 'case_cnt', 'wrap': 'break_w'},
+           {'a': 'asm_a', 'b': 'load_b', 'c': 'store_c', 'd': 'strobe_d', 'i': 'inline_i', 'j': 'csleep_j', 's': 'signed_s',
+            't': 'switch_t', 'g': 'const_g', 'arr': 'sizeof_arr', 'cnt': 'continue_c', 'wrap': 'default_w'},
+           {'a': 'returna', 'b': 'elseb', 'c': 'gotoc', 'd': 'dod', 'i': 'ifi', 'j': 'forj', 's': 'whiles', 't': 'caset',
+            'g': 'breakg', 'arr': 'unsignedarr', 'cnt': 'voidcnt', 'wrap': 'continuew'},
+           {'a': 'sizeofa', 'b': 'constb', 'c': 'charc', 'd': 'shortd', 'i': 'inti', 'j': 'signedj', 's': 'interrupts',
+            't': 'bank1t', 'g': 'superchipg', 'arr': 'alignedarr', 'cnt': 'inlinecnt', 'wrap': 'scatteredw'},
+           # ... and the rest of the name is another variable of the program: 'return_b = 3' must not be 'return _b = 3',
+           # 'elsec = 1' after an if not 'else c = 1', 'sizeofj' not 'sizeof j'
+           {'a': 'return_b', 'b': '_b', 'd': 'elsec', 'i': 'sizeofj', 's': 'sizeoft', 'g': 'sizeofc', 'cnt': 'constwrap'}]
+
+
+def rename_ids(text, m):
+    if not m:
+        return text
+    import re
+    return re.sub(r'[A-Za-z_]\w*', lambda mo: m.get(mo.group(0), mo.group(0)), text)
+
+
+def unrename_result(r, m):
+    """a compile result of a renamed program, expressed with the original names again"""
+    if not m:
+        return r
+    import json
+    inv = {v: k for k, v in m.items()}
+    return json.loads(rename_ids(json.dumps(r), inv))
 
 
 def fn_src(f):
@@ -868,6 +899,20 @@ def directed_programs():
         for en, e in (('>>8', ('bin', '>>', inc, N(8))), ('<<8', ('bin', '<<', inc, N(8))), ('+256', ('bin', '+', inc, N(256))), ('&255', ('bin', '&', inc, N(255))), ('plain', inc)):
             for tgt in ('t', 'a'):
                 mk('F_%s_%s_%s' % (iname, en, tgt), [asg(V(tgt), e)])
+    # N. every position a name can take (for the renamed twins, RENAMES): each variable first in a statement that
+    #    follows an if without else, first in a statement of a function that returns a value, alone after a
+    #    unary operator, as an operand, as a subscript, in a condition, as a goto label's neighbour
+    for n_, x in enumerate(('a', 'b', 'c', 'd', 'i', 'j', 'g')):
+        y = 'b' if x != 'b' else 'a'
+        f1 = dict(name='cnt', ret='unsigned char', params=[], inline=False, body=[asg(V(x), ('bin', '+', V(x), N(3))), ('return', V(x))])
+        mk('N_first_%s' % x, [('if', V(y), asg(V(y), N(7)), None), asg(V(x), N(5)), ('if', V(y), ('block', [asg(V(y), N(9))]), None), asg(V(x), ('bin', '+', V(x), N(1)))])
+        mk('N_fn_%s' % x, [asg(V(y), ('call', 'cnt', []))], funcs=[f1])
+        mk('N_opnd_%s' % x, [asg(V(y), ('bin', '+', V(x), N(1))), asg(V('arr'), V(x)) if False else asg(('idx', 'arr', N(1)), ('un', '-', V(x))),
+                             asg(('idx', 'arr', N(2)), ('un', '~', V(x))), ('if', ('un', '!', V(x)), asg(V(y), N(4)), None),
+                             asg(('idx', 'arr', N(3)), ('bin', '+', N(2), V(x)))])
+    for n_, x in enumerate(('s', 't')):
+        mk('N_first16_%s' % x, [('if', V('a'), asg(V('a'), N(7)), None), asg(V(x), N(500)), asg(V('b'), ('bin', '+', V(x), N(1))),
+                                asg(V('s' if x == 't' else 't'), ('bin', '+', V(x), N(300)))])
     return out
 
 
